@@ -60,3 +60,16 @@ impl LuaIndex for LuaDeclIndex {
         self.decl_trees.clear();
     }
 }
+
+/// Entry counts of every map of this index (verification hook, add-only, off by default).
+#[cfg(feature = "verif")]
+impl LuaDeclIndex {
+    pub fn verif_sizes(&self) -> Vec<(String, usize)> {
+        let p = "decl";
+        let mut v: Vec<(String, usize)> = Vec::new();
+        let mut put = |name: &str, n: usize| v.push((format!("{p}.{name}"), n));
+        put("decl_trees", self.decl_trees.len());
+
+        v
+    }
+}
